@@ -89,7 +89,10 @@ class MimeStub:
                              for x, y in zip(a.c, arg.c))):
                 return res
         k = len(self.seen)
-        res = (self.classes[self.ctx.choice(f"mime_answer{k}", len(self.classes))], None)
+        # second component: the encoding suffix mimetypes strips before guessing (x.pdf.br -> ('application/pdf', 'br'))
+        # (two extra answer classes rather than the full product: nothing / a mapped type, each with an encoding)
+        pairs = [(c, None) for c in self.classes] + [(None, "br"), (self.classes[2], "br")]
+        res = pairs[self.ctx.choice(f"mime_answer{k}", len(pairs))]
         self.seen.append((arg, res))
         return res
 
@@ -258,6 +261,49 @@ def k2_dispatch(ctx):
             ctx.require(ae._get_file_extractor_cached(nm) is expected, "archive-dispatch-differs", name=nm)
 
 
+# ---------------------------------------------------------------------------------------
+# K3: the decision is a function of (path, MIME configuration) - not of what was asked before
+# ---------------------------------------------------------------------------------------
+
+class _FixedMime:
+    def __init__(self, answer):
+        self.answer = answer
+
+    def guess_type(self, arg, strict=True):
+        return (self.answer, None)
+
+
+def k3_history(ctx):
+    """one path asked under configuration A, then under B, then under A again: at every step the two entry
+    points agree with each other, and step 3 answers as step 1 did"""
+    r = _router()
+    from sharepoint2text.parsing.exceptions import ExtractionFileFormatNotSupportedError
+    paths = ["memo.note", "x.text", "dir/y.unknownext", "noext", "a.pdf", "Q.TXT", "z.tar.gz"]
+    p = paths[ctx.choice("path", len(paths))]
+    classes = _mime_classes(r)
+    a = classes[ctx.choice("config_a", len(classes))]
+    b = classes[ctx.choice("config_b", len(classes))]
+
+    def ask(answer):
+        with ctx.stub(r, mimetypes=_FixedMime(answer)):
+            sup = r.is_supported_file(p)
+            try:
+                fn = r.get_extractor(p).__name__
+            except ExtractionFileFormatNotSupportedError:
+                fn = None
+        return sup, fn
+
+    steps = [ask(a), ask(b), ask(a)]
+    for i, (sup, fn) in enumerate(steps):
+        ctx.require(bool(sup) == (fn is not None), "is_supported_file-disagrees-with-get_extractor", step=i, path=p,
+                    supported=bool(sup), extractor=fn, config_a=repr(a), config_b=repr(b))
+    if ctx.perturb == "expect_b_sticks":
+        ctx.require(steps[2] == steps[1], "decision-depends-on-history", path=p)
+        return
+    ctx.require(steps[2] == steps[0], "decision-depends-on-history", path=p, first=repr(steps[0]), third=repr(steps[2]),
+                config_a=repr(a), config_b=repr(b))
+
+
 def _targets():
     r = _router()
     return [r.is_supported_file, r.get_extractor, r._file_type_from_extension, r._get_extractor]
@@ -270,7 +316,8 @@ KERNELS = [
            parts=_k1_parts,
            perturb=[("spec_gz_unsupported", {"len": 4})],
            stubs=["mimetypes.guess_type -> arbitrary answer per distinct argument from the classes the router can "
-                  "distinguish (None, '', each mapped type, unmapped, case/space variants)",
+                  "distinguish (None, '', each mapped type, unmapped, case/space variants), with or without an encoding "
+                  "suffix reported (second component)",
                   "os.path.splitext -> stdlib genericpath._splitext run on the symbolic string (posix separators)"],
            symbolic=["every character of the path (ASCII 1..127), lower-casing exact"],
            choices=["MIME answer class"],
@@ -281,6 +328,12 @@ KERNELS = [
            timeout={"quick": 280, "thorough": 2400}, max_depth=400),
     Kernel("K1t", "table facts: aliases/MIME values are registry keys, targets importable, README == spec == tables",
            k1_tables, targets=_targets, strength="structure", core=False),
+    Kernel("K3", "the routing decision is a function of (path, MIME configuration): same path asked again under another "
+                 "configuration and back",
+           k3_history, targets=_targets, strength="structure", perturb=["expect_b_sticks"],
+           choices=["path from a vocabulary (MIME-routed unknown extensions, no extension, documented extensions)",
+                    "MIME answer class of configuration A and of configuration B"],
+           stubs=["mimetypes -> fixed answer per configuration"]),
     Kernel("K2", "read_file and archive-member dispatch route on the same string as get_extractor",
            k2_dispatch, targets=lambda: [__import__("sharepoint2text").read_file],
            strength="structure", core=False, choices=["file name from a vocabulary", "call site"]),
